@@ -120,8 +120,11 @@ def bounded_time_stage(ctx, V):
         # hangs up every 61 s (> the longest back-off step, < the login's 100 s): a fresh login each time
         "flapping": ["PLAN 0 " + " ".join(["now"] * 60)] + start + sum([["NOW %d" % (1000000 + 61000000 * k), "PEERCLOSE 0", "PASS"] for k in range(1, 40)], []),
     }
-    for name, ops in hist.items():
-        cfg, ops = case(T, ops)
+    # F41 refined: the bound needs time-out + latency < 60 s; at exactly 60 s a peer that hangs up in the pass the login deadline
+    # wakes the daemon for starves the queue as well
+    hist60 = ["PLAN 0 " + " ".join(["now"] * 60)] + start + sum([["NOW %d" % (1000000 + 60000000 * k), "PEERCLOSE 0", "PASS"] for k in range(1, 40)], [])
+    for name, ops in list(hist.items()) + [("flapping60", hist60)]:
+        cfg, ops = case(60.0 if name == "flapping60" else T, ops)
         ops = [ops[1]] + [ops[0]] + ops[2:] if ops[0].startswith("PLAN") else ops        # NOW first, then the plan
         rc, o, e = C08.run_impl(devh, ctx.scratch, 900 + len(name), cfg, ops)
         V.case(("bounded-time", name), nontrivial=True); V.count("bounded-time:" + name)
@@ -129,10 +132,10 @@ def bounded_time_stage(ctx, V):
             V.violation("daemon-dies", "device-layer rc=%s" % rc, dict(history=name, ops=ops, config=cfg.text()), e[-400:]); continue
         done = [l for l in o.splitlines() if l.startswith("EV DONE 7 ")]
         last_now = max(int(x.split()[1]) for x in ops if x.startswith("NOW "))
-        if not done and last_now >= 1100000 + us(BOUND * T):
-            V.violation("bounded-time", name + "-login" if name == "flapping" else name, dict(history=name, ops=ops, config=cfg.text()),
+        if not done and last_now >= 1100000 + us(BOUND * cfg.devs[0].timeout):
+            V.violation("bounded-time", "flapping-login" if name.startswith("flapping") else name, dict(history=name, ops=ops, config=cfg.text()),
                         "the action queued for client 7 at 1.1 s on a device with time-out %g s has not been completed after %g s of virtual time "
-                        "(%d time-outs); last device state: %s" % (T, last_now / 1e6, int((last_now - 1100000) / us(T)), [l for l in o.splitlines() if l.startswith("DEV ")][-1][:300]))
+                        "(%d time-outs); last device state: %s" % (cfg.devs[0].timeout, last_now / 1e6, int((last_now - 1100000) / us(cfg.devs[0].timeout)), [l for l in o.splitlines() if l.startswith("DEV ")][-1][:300]))
     V.rule = (V.rule + " || " if V.rule else "") + ("bounded time on the real device.c (dev_h): a queued request must be completed within %d device time-outs for a silent, "
               "refusing, garbage-sending and flapping peer" % BOUND)
 
